@@ -4,3 +4,4 @@ CONSTANTS MaxLen = 5
           Variant = "else-keeps-loop"
 INVARIANTS NoBad PsLive ChainLive AllClosedAtEnd LoopsEnclose LevelIsDepth
 CHECK_DEADLOCK FALSE
+VIEW View
